@@ -12,7 +12,7 @@ def Inv (fa : FixedArr) : Prop := (fa.vals.xs.length : Int) = fa.dim ∧ 2 ≤ f
 
 instance (fa : FixedArr) : Decidable (Inv fa) := by unfold Inv; infer_instance
 
-/-- the size invariant of a Curve -/
+/-- the size invariant of a Curve: image and domain have the same number of points (`len`) -/
 def CInv (c : Curve) : Prop := c.image.len = c.domain.len
 
 instance (c : Curve) : Decidable (CInv c) := by unfold CInv; infer_instance
